@@ -218,6 +218,9 @@ class GraphSystem(System):
         c.has_lang = True
         c.added = 0
         c.removed_nodes = []       # objects removed from the graph (for invalid calls)
+        c.removed_attackers = []
+        c.removed_from = None      # the graph object the last removal was made on
+        c.att_removed_from = None
         c.ever_ids, c.ever_names, c.ever_aids = set(), set(), set()
         c.scratch_n = 0
         c.last_outcome = None
@@ -234,7 +237,8 @@ class GraphSystem(System):
             c.ever_aids.add(a.id)
 
     def key(self, c):
-        return canon.key((c.g, c.has_lang, c.added, len(c.removed_nodes),
+        return canon.key((c.g, c.has_lang, c.added, len(c.removed_nodes), len(c.removed_attackers),
+                          c.removed_from is c.g, c.att_removed_from is c.g,
                           sorted(map(repr, c.ever_ids)), sorted(c.ever_names), sorted(map(repr, c.ever_aids))))
 
     def invariant(self, c):
@@ -263,6 +267,16 @@ class GraphSystem(System):
                 ops.append((('remove_node', i), 0))
             if c.removed_nodes:
                 ops.append((('remove_node_stale',), 1))
+                last = c.removed_nodes[-1]
+                # the object that was removed last is handed back to the graph (only while no node of the graph
+                # carries its full name: graphs with two equally named steps are outside the property)
+                if c.removed_from is c.g and c.added < self.max_nodes_added and (last.asset is None or all(
+                        n.full_name != last.full_name for n in g.nodes)):
+                    ops.append((('readd_node',), 1))
+            if ids and c.added < self.max_nodes_added:
+                # a node that is in the graph is handed to add_node again
+                ops.append((('add_live_node', ids[0], None), 1))
+                ops.append((('add_live_node', ids[-1], max(ids) + 2), 1))
             ops.append((('analyse',), 0))
             ops.append((('prune',), 0))
             # labels are public attributes: relabel a step by hand (no full recalculation), pruning must follow it
@@ -298,6 +312,24 @@ class GraphSystem(System):
                         ops.append((('add_attacker', None, (), (ids[0], ids[0])), 1))
             for a in g.attackers[:3]:
                 ops.append((('remove_attacker', a.id), 0))
+            if c.removed_attackers and c.att_removed_from is c.g and len(g.attackers) < self.max_attackers:
+                ops.append((('readd_attacker',), 1))
+            if g.attackers:
+                # an attacker object that is not in the graph but compares equal to one that is
+                ops.append((('remove_attacker_twin', g.attackers[-1].id), 1))
+                # an attacker that is in the graph is handed to add_attacker again (fresh id / the id of another)
+                aids_ = [a.id for a in g.attackers]
+                ops.append((('add_live_attacker', aids_[0], None), 1))
+                if len(aids_) > 1:
+                    ops.append((('add_live_attacker', aids_[0], aids_[1]), 1))
+            if len(g.attackers) < self.max_attackers and ids:
+                # unknown step ids: after a known one among the reached steps / among the entry points
+                ghost = max(ids) + 7
+                ops.append((('add_attacker_bad', 'reached', ids[0], ghost), 1))
+                ops.append((('add_attacker_bad', 'entry', ids[0], ghost), 1))
+            if at and ids and len(g.attackers) + 2 <= self.max_attackers:
+                # two attackers that compare equal (same name, no id yet) act on one step before they are added
+                ops.append((('twins', ids[0]), 1))
             cand = ids[:3] if at else ids[:1]
             for a in g.attackers[:2]:
                 reached = {n.id for n in a.reached_attack_steps}
@@ -333,6 +365,13 @@ class GraphSystem(System):
             if raised is None:
                 raise Violation(f'{kind}:accepted_but_must_be_rejected:{tag}', f'{kind} {tag} must be rejected')
             if after != before:
+                raise Violation(f'{kind}:raised_but_state_changed:{tag}', f'{kind} {tag} raised but changed the graph',
+                                expected=_d(before, after), observed=None)
+            return
+        if mode == 'lenient':
+            # re-use of a removed object: rejecting it (state unchanged) and accepting it are both fine,
+            # the state invariants (checked by the engine after every step) decide
+            if raised is not None and after != before:
                 raise Violation(f'{kind}:raised_but_state_changed:{tag}', f'{kind} {tag} raised but changed the graph',
                                 expected=_d(before, after), observed=None)
             return
@@ -415,12 +454,89 @@ class GraphSystem(System):
         def thunk():
             c.g.remove_node(node)
             c.removed_nodes.append(node)
+            c.removed_from = c.g
         tag = ('compromised' if node.compromised_by else 'plain') + \
               (',selfloop' if any(x is node for x in node.children) else '')
 
         def expect(before, after):
             return self._drop_node(before, i)
         return 'must_succeed', thunk, expect, tag
+
+    def op_readd_node(self, c, op):
+        node = c.removed_nodes[-1]
+
+        def thunk():
+            c.g.add_node(node)
+            c.removed_nodes.pop()
+            c.added += 1
+        return 'lenient', thunk, None, 'removed_object'
+
+    def op_add_live_node(self, c, op):
+        node = next(n for n in c.g.nodes if n.id == op[1])
+
+        def thunk():
+            c.g.add_node(node, node_id=op[2])
+        return 'lenient', thunk, None, 'fresh_id' if op[2] is not None else 'auto_id'
+
+    def op_add_live_attacker(self, c, op):
+        a = next(x for x in c.g.attackers if x.id == op[1])
+
+        def thunk():
+            c.g.add_attacker(a, attacker_id=op[2])
+        return 'lenient', thunk, None, 'id_of_other' if op[2] is not None else 'auto_id'
+
+    def op_add_attacker_bad(self, c, op):
+        from maltoolbox.attackgraph import Attacker
+        _, where, good, ghost = op
+        c.scratch_n += 1
+        a = Attacker(name=f'att{c.scratch_n}', entry_points=[], reached_attack_steps=[])
+
+        def thunk():
+            if where == 'reached':
+                c.g.add_attacker(a, reached_attack_steps=[good, ghost])
+            else:
+                c.g.add_attacker(a, entry_points=[good, ghost], reached_attack_steps=[good])
+        return 'must_raise', thunk, None, 'unknown_' + where
+
+    def op_remove_attacker_twin(self, c, op):
+        from maltoolbox.attackgraph import Attacker
+        a = next(x for x in c.g.attackers if x.id == op[1])
+        twin = Attacker(name=a.name, entry_points=list(a.entry_points), reached_attack_steps=list(a.reached_attack_steps), id=a.id)
+
+        def thunk():
+            c.g.remove_attacker(twin)
+        return 'any_unchanged', thunk, None, 'equal_twin'
+
+    def op_readd_attacker(self, c, op):
+        a = c.removed_attackers[-1]
+
+        def thunk():
+            c.g.add_attacker(a)
+            c.removed_attackers.pop()
+        return 'lenient', thunk, None, 'removed_object'
+
+    def op_twins(self, c, op):
+        from maltoolbox.attackgraph import Attacker
+        n = next(x for x in c.g.nodes if x.id == op[1])
+        a = Attacker(name='twin', entry_points=[], reached_attack_steps=[])
+        b = Attacker(name='twin', entry_points=[], reached_attack_steps=[])
+
+        def thunk():
+            a.compromise(n)
+            b.compromise(n)
+            b.undo_compromise(n)
+            c.g.add_attacker(a)
+            c.g.add_attacker(b)
+
+        def expect(before, after):
+            o = copy.deepcopy(before)
+            o['attackers'][a.id] = {'name': 'twin', 'entry_points': [], 'reached': [n.id]}
+            o['attackers'][b.id] = {'name': 'twin', 'entry_points': [], 'reached': []}
+            o['nodes'][n.id]['compromised_by'] = sorted(o['nodes'][n.id]['compromised_by'] + [a.id])
+            if not any(x is a for x in n.compromised_by) or any(x is b for x in n.compromised_by):
+                raise Violation('twins:wrong_attacker_object', 'undoing the compromise of one attacker acted on its equal twin')
+            return o
+        return 'must_succeed', thunk, expect, 'equal_unregistered'
 
     def op_remove_node_stale(self, c, op):
         node = c.removed_nodes[-1]
@@ -463,6 +579,7 @@ class GraphSystem(System):
             removed = [n for n in c.g.nodes]
             prune_unviable_and_unnecessary_nodes(c.g)
             c.removed_nodes.extend(n for n in removed if not any(m is n for m in c.g.nodes))
+            c.removed_from = c.g
 
         def expect(before, after):
             o = before
@@ -553,6 +670,8 @@ class GraphSystem(System):
 
         def thunk():
             c.g.remove_attacker(a)
+            c.removed_attackers.append(a)
+            c.att_removed_from = c.g
 
         def expect(before, after):
             o = copy.deepcopy(before)
